@@ -171,6 +171,35 @@ def correspondence(ctx: core.Ctx) -> None:
                + [{"kind": "reduce", "a": f'python_version {op} "3.8"', "c": c} for op in (">", "!=", "<=", "==") for c in ranges[9:13]])
     for k in range(0, len(uni), 1200):
         run(ctx, uni[k:k + 1200], "reduce-leaf-universe")
+    lcu = list_conj_universe()
+    if not ctx.thorough:
+        pinned = [c for c in lcu if c["c"] in ("~3.9", "~3.8") and c["a"].startswith("python_full_version !=")]
+        lcu = pinned + ctx.rng.sample(lcu, 350)
+    lenvs = G.envs(extra_sets=[[]], pys=LIST_CONJ_ENVS_PY)
+    for k in range(0, len(lcu), 1200):
+        run(ctx, lcu[k:k + 1200], "reduce-list-conjunctions", envs=lenvs)
+
+
+def list_conj_universe() -> list[dict[str, Any]]:
+    """a comparison clause on the python version next to an `in` / `not in` LIST clause of two or three versions in one
+    conjunction (both orders), alone (MultiMarker path) and as the python-only member of a union (the MarkerUnion shortcut
+    through get_python_constraint_from_marker), reduced by ranges that lie inside ONE of the listed minors and by wider ones:
+    the comparison clause must keep restricting every listed version, not only the first (seeded change C17-6)"""
+    cmps = [f'python_full_version {op} "{v}"' for op in ("!=", "<", ">=") for v in ("3.8.1", "3.9.1")]
+    cmps += [f'python_version {op} "{v}"' for op in ("<", ">=", "!=") for v in ("3.8", "3.9")]
+    lists = ['python_version in "3.7, 3.9"', 'python_version in "3.8 3.9"', 'python_version in "3.7, 3.8, 3.9"',
+             'python_version not in "3.7, 3.8"', 'python_full_version in "3.8.1, 3.9.1"', 'python_version in "3.9, 3.8"']
+    ranges = ["~3.7", "~3.8", "~3.9", ">=3.9,<3.10", "^3.9", ">=3.8", ">=3.7,<3.10", ">=3.9.1,<3.9.5"]
+    out = []
+    for a in cmps:
+        for b in lists:
+            for conj in (f"{a} and {b}", f"{b} and {a}"):
+                for m in (conj, f'{conj} or sys_platform == "linux"'):
+                    out += [{"kind": "reduce", "a": m, "c": c} for c in ranges]
+    return out
+
+
+LIST_CONJ_ENVS_PY = ["3.7.0", "3.7.1", "3.8.0", "3.8.1", "3.8.10", "3.9.0", "3.9.1", "3.9.4", "3.9.18", "3.10.0", "3.10.12"]
 
 
 def search(ctx: core.Ctx) -> None:
